@@ -411,3 +411,42 @@ package ro
 
 //@ loop FromChannel$1$1#0
 //@   iteration emits chselect, destination.NextWithContext(ctx, received)
+
+// ToChannel (operator_sink.go): one channel of the configured capacity, one blocking send per upstream
+// notification, closed (through sync.Once) after the terminal notification and by the teardown.
+
+//@ func ToChannel$1$1
+//@   note the subscribe function of ToChannel
+//@   props C17 C08
+//@   track chmake destination.* spawn.*
+//@   ensures [one-channel-of-the-configured-capacity-handed-out-once|C17,C08] trace(chmake(size), spawn.ANY, destination.NextWithContext(subscriberCtx, _))
+
+//@ func ToChannel$1$1$2$1
+//@   note upstream Next
+//@   props C17 C08
+//@   track chsend.* chselect destination.* call.Once.Do
+//@   ensures [one-blocking-send-per-value|C17,C08] trace(chsend.ch(_, fields(0, value, _)))
+
+//@ func ToChannel$1$1$2$2
+//@   note upstream Error
+//@   props C17 C08
+//@   track chsend.* chselect destination.* call.Once.Do
+//@   ensures [terminal-sent-then-closed-then-completed|C17,C08] trace(chsend.ch(_, fields(1, _, err)), call.Once.Do, destination.CompleteWithContext(ctx))
+
+//@ func ToChannel$1$1$2$3
+//@   note upstream Complete
+//@   props C17 C08
+//@   track chsend.* chselect destination.* call.Once.Do
+//@   ensures [terminal-sent-then-closed-then-completed|C17,C08] trace(chsend.ch(_, fields(2, _, _)), call.Once.Do, destination.CompleteWithContext(ctx))
+
+//@ func ToChannel$1$1$1$1
+//@   note the body run (once) by closeChan
+//@   props C17
+//@   track chclose.*
+//@   ensures [closes-the-channel|C17] trace(chclose.ch)
+
+//@ func ToChannel$1$1$3
+//@   note the teardown
+//@   props C17 C03
+//@   track subscriptions.* call.Once.Do chclose.*
+//@   ensures [releases-upstream-then-closes-once|C17,C03] trace(subscriptions.Unsubscribe(), call.Once.Do)
